@@ -76,7 +76,9 @@ def finalize(agg, tier):
         if not c.get("invalid_offered:" + s):
             out.append("no invalid input of the statement's class '%s' was offered" % s)
     for name in ("refused_ValueError", "generate_sizes_seen", "scripted_rsa_tapes", "boundary_tapes", "model_written_files_imported",
-                 "library_written_files_imported", "compressed_points_imported", "factor_recovery_keys_checked"):
+                 "library_written_files_imported", "compressed_points_imported", "factor_recovery_keys_checked", "carmichael_cofactor_recoveries",
+                 "lost_carry_points:NIST P-192", "lost_carry_points:NIST P-224", "lost_carry_points:NIST P-256", "lost_carry_points:NIST P-384",
+                 "lost_carry_points:NIST P-521"):
         if not c.get(name):
             out.append("deciding counter %s is zero" % name)
     if c.get("filter_spy_available"):
